@@ -24,11 +24,28 @@ from deep.thread_local import ThreadLocal  # noqa: E402
 
 
 # ---------------------------------------------------------------------------------------
-# logging sink: formats every record (as a production handler would) into a bounded buffer
-class Sink(logging.Handler):
+# logging sink: handles every record the way the handler of a production set-up does - logging.StreamHandler with the agent's
+# default format, tracebacks included (formatting a traceback reads attributes of the application's exception and of the objects
+# in the failing frame: that is code of the application running inside the agent's log call) - into bounded buffers
+class _Bounded:
+    def __init__(self, limit=200_000):
+        self.limit = limit
+        self.size = 0
+
+    def write(self, text):
+        self.size = min(self.limit, self.size + len(text))
+
+    def flush(self):
+        pass
+
+
+class Sink(logging.StreamHandler):
     def __init__(self):
-        super().__init__(level=logging.DEBUG)
+        super().__init__(stream=_Bounded())
+        self.setLevel(logging.DEBUG)
+        self.setFormatter(logging.Formatter("%(asctime)s - %(name)s - %(levelname)s - %(message)s"))
         self.records = []
+        self.errors = 0
 
     def emit(self, record):
         try:
@@ -37,6 +54,17 @@ class Sink(logging.Handler):
             msg = 'unformattable: %r' % (e,)
         if len(self.records) < 2000:
             self.records.append((record.name, record.levelname, msg))
+        super().emit(record)          # format + write; RecursionError is re-raised, other Exceptions go to handleError (as in the stdlib)
+
+    def handleError(self, record):
+        # the stdlib prints the failure to sys.stderr (logging.raiseExceptions is True by default) - which formats a traceback again
+        self.errors += 1
+        saved = sys.stderr
+        sys.stderr = _Bounded()
+        try:
+            super().handleError(record)
+        finally:
+            sys.stderr = saved
 
     def clear(self):
         self.records.clear()
@@ -56,7 +84,7 @@ def quiet_logging(level=logging.INFO):
         d.removeHandler(h)
     d.setLevel(level)
     d.propagate = True
-    logging.raiseExceptions = False
+    logging.raiseExceptions = True      # the default
 
 
 quiet_logging()
